@@ -1,6 +1,7 @@
 #!/bin/bash
 # Run checks against a scratch copy of /repo with a patch applied (seeded-change experiments).
 # usage: tools/mutant.sh <patch.diff> <check-id> [tier]      (never touches /repo itself)
+# VERIF_CMD='<shell command>' replaces the ./check invocation (it sees VERIF_HARNESS)
 S=${VERIF_SCRATCH:-/tmp/verif-scratch}
 set -e
 mkdir -p $S
@@ -12,7 +13,7 @@ sed -i "s#path = \"/repo\"#path = \"$S/repo\"#" $S/harness/Cargo.toml
 git -C $S/repo apply "$(realpath "$1")"
 set +e
 cd /verif
-VERIF_HARNESS=$S/harness ./check "$2" "${3:-quick}"
+if [ -n "$VERIF_CMD" ]; then VERIF_HARNESS=$S/harness bash -c "$VERIF_CMD"; else VERIF_HARNESS=$S/harness ./check "$2" "${3:-quick}"; fi
 rc=$?
 git -C $S/repo checkout -q -- .
 git -C /verif checkout -q -- evidence/ 2>/dev/null
